@@ -68,6 +68,7 @@ class SObj:
 class FuncRef:
     fi: FuncInfo
     bound: object = None  # self
+    closure: dict | None = None  # enclosing environment of a nested function
 
 
 @dataclass
@@ -235,12 +236,12 @@ class Interp:
 
     # ------------------------------------------------------------------
     # calling repository functions
-    def call_function(self, fi: FuncInfo, args: list, kwargs: dict, bound=None):
+    def call_function(self, fi: FuncInfo, args: list, kwargs: dict, bound=None, closure=None):
         if self.depth >= self.MAX_DEPTH:
             raise AnalysisError(f'inlining depth exceeded at {fi.fq}')
         decs = fi.decorators()
         node = fi.node
-        env: dict = {}
+        env: dict = dict(closure) if closure else {}
         a = node.args
         pos = list(a.posonlyargs) + list(a.args)
         args = list(args)
@@ -503,7 +504,7 @@ class Interp:
 
     def st_FunctionDef(self, st, env, mi):
         fi = FuncInfo(self.call_stack[-1].module if self.call_stack else mi.name, st.name, st)
-        env[st.name] = FuncRef(fi)
+        env[st.name] = FuncRef(fi, closure=env)
 
     # ------------------------------------------------------------------
     def truth(self, v, node) -> bool:
@@ -662,10 +663,10 @@ class Interp:
                 return FuncRef(meth, bound=obj)
             if attr == '__class__':
                 return ClassRef(obj.cls)
-            # class-level default
-            for name, default in obj.cls.dataclass_fields():
-                if name == attr and default is not None:
-                    return self.eval(default, {}, self.repo.module(obj.cls.module))
+            # class-level default / ClassVar
+            v = self.class_attr(obj.cls, attr)
+            if v is not _MISSING:
+                return v
             raise AnalysisError(f'unknown attribute {obj.cls.name}.{attr} at {self.where(node)}')
         if isinstance(obj, ClassRef):
             meth = self.find_method(obj.ci, attr)
@@ -673,9 +674,9 @@ class Interp:
                 return FuncRef(meth)
             if attr == '__name__':
                 return obj.ci.name
-            for st in obj.ci.node.body:
-                if isinstance(st, ast.Assign) and any(isinstance(t, ast.Name) and t.id == attr for t in st.targets):
-                    return self.eval(st.value, {}, self.repo.module(obj.ci.module))
+            v = self.class_attr(obj.ci, attr)
+            if v is not _MISSING:
+                return v
             raise AnalysisError(f'unknown class attribute {obj.ci.name}.{attr} at {self.where(node)}')
         if isinstance(obj, SuperRef):
             cmi = self.repo.module(obj.cls.module)
@@ -703,6 +704,26 @@ class Interp:
         except AttributeError:
             raise AnalysisError(f'attribute {attr} of {type(obj).__name__} at {self.where(node)}') from None
 
+    def class_attr(self, ci: ClassInfo, attr: str):
+        stack = [ci]
+        seen = set()
+        while stack:
+            c = stack.pop(0)
+            if (c.module, c.name) in seen:
+                continue
+            seen.add((c.module, c.name))
+            cmi = self.repo.module(c.module)
+            for st in c.node.body:
+                if isinstance(st, ast.Assign) and any(isinstance(t, ast.Name) and t.id == attr for t in st.targets):
+                    return self.eval(st.value, {}, cmi)
+                if isinstance(st, ast.AnnAssign) and isinstance(st.target, ast.Name) and st.target.id == attr and st.value is not None:
+                    return self.eval(st.value, {}, cmi)
+            for b in c.bases:
+                b = b.split('[')[0]
+                if b in cmi.classes:
+                    stack.append(cmi.classes[b])
+        return _MISSING
+
     def find_method(self, ci: ClassInfo, name: str):
         seen = set()
         stack = [ci]
@@ -722,6 +743,12 @@ class Interp:
                     r = self.repo.resolve_rel(mi.imports[b][1], mi.imports[b][2])
                     if r and r[0] == 'class':
                         stack.append(r[1])
+                elif '.' in b:
+                    head, _, tail = b.partition('.')
+                    if head in mi.imports and mi.imports[head][0] == 'rel':
+                        r = self.repo.resolve_rel(mi.imports[head][1], mi.imports[head][2])
+                        if r and r[0] == 'module' and tail in self.repo.modules[r[1]].classes:
+                            stack.append(self.repo.modules[r[1]].classes[tail])
         return None
 
     def ex_Call(self, e, env, mi):
@@ -751,7 +778,7 @@ class Interp:
 
     def call(self, fn, args, kwargs, node):
         if isinstance(fn, FuncRef):
-            return self.call_function(fn.fi, args, kwargs, bound=fn.bound)
+            return self.call_function(fn.fi, args, kwargs, bound=fn.bound, closure=fn.closure)
         if isinstance(fn, ClassRef):
             return self.construct(fn.ci, args, kwargs, node)
         if isinstance(fn, ExtRef):
@@ -785,6 +812,8 @@ class Interp:
         raise AnalysisError(f'call of {fn!r} at {self.where(node)}')
 
     def construct(self, ci: ClassInfo, args, kwargs, node):
+        if any(b.split('.')[-1] in ('Enum', 'IntEnum', 'StrEnum') for b in ci.bases):
+            return Opaque(f'{ci.name}(...) enum member')
         obj = SObj(ci)
         init = self.find_method(ci, '__init__')
         if init is not None:
@@ -826,6 +855,12 @@ class Interp:
     def binop(self, opname, pyop, a, b, node):
         if isinstance(a, SVar | Unit) or isinstance(b, SVar | Unit):
             return self.model.binop(self, opname, a, b, node)
+        if opname == 'or' and all(isinstance(x, ClassRef | ExtRef | tuple) for x in (a, b)):
+            # X | Y on types: a union, used by isinstance
+            flat = []
+            for x in (a, b):
+                flat.extend(x if isinstance(x, tuple) else (x,))
+            return tuple(flat)
         if isinstance(a, Opaque) or isinstance(b, Opaque):
             return Opaque(f'{opname} on ⊤')
         if isinstance(a, SObj):
@@ -1100,6 +1135,9 @@ class Interp:
         except _OpaqueElts:
             return Opaque('comprehension over ⊤')
         return out
+
+
+_MISSING = object()
 
 
 class _OpaqueElts(Exception):
